@@ -300,7 +300,7 @@ func Worker(tb *testing.T, cfg WorkerConfig) *Summary {
 	stopWatch := startWatchdog(cfg, timeout)
 	defer stopWatch()
 	if cfg.MaxClasses == 0 {
-		cfg.MaxClasses = 12
+		cfg.MaxClasses = 40
 	}
 
 	if cfg.Worker == 0 && cfg.OnlyRun < 0 {
